@@ -3,9 +3,14 @@
    (a function of the byte string only), every early-rejection predicate [early], every cache
    path p, every initial file system, every list of servers with arbitrary outcomes of the
    file-system calls, and EVERY event list — in particular with EDrop (the future is dropped)
-   at any position.  `partial`: the events are what reqwest/hyper/tokio deliver; the kernel's
-   rename atomicity and a concurrently writing second process are outside the model. *)
-From RM Require Import C16.Model C16.Proofs C16.Driver.
+   at any position.  They are full statements about the state machine.  Two keep the suffix
+   `_partial`: c16_no_stray_tmp_partial and c16_locate_no_stray_tmp_partial — the removal of the
+   temp file on every exit edge is NamedTempFile's Drop running when the future's locals are
+   dropped; the model has it as a definition (drop_temp), it is not derived from anything, and
+   a killed process never runs it.  The property as a whole stays partial (manifest): the
+   events are what reqwest/hyper/tokio deliver, persist is one step by the kernel's rename
+   atomicity, a concurrently writing second process is outside the model. *)
+From RM Require Import C09.Grammar C10.Model C16.Model C16.Proofs C16.Rehit C16.Driver.
 Open Scope Z_scope.
 
 Section Statements.
@@ -21,7 +26,7 @@ Section Statements.
      in a run in which one server answered with a non-error status, its whole body arrived
      (clean end of body, no error in between) and the parser accepted exactly those bytes;
      the lookup then returns that table with that server's URL. *)
-  Theorem c16_commit_only_after_ok_partial : forall f0 ss evs q c,
+  Theorem c16_commit_only_after_ok : forall f0 ss evs q c,
     let s := run (net_start f0 ss) evs in
     cache (s_fs s) q = Some (File c) -> cache f0 q <> Some (File c) ->
     q = p /\
@@ -34,7 +39,7 @@ Section Statements.
 
   (* ... and it consists of exactly the downloaded bytes followed by `INFO URL u\n`; if the
      downloaded bytes do not end in a newline, one newline separates them from the record *)
-  Theorem c16_content_partial : forall f0 ss evs q c,
+  Theorem c16_content : forall f0 ss evs q c,
     let s := run (net_start f0 ss) evs in
     cache (s_fs s) q = Some (File c) -> cache f0 q <> Some (File c) ->
     exists pre cur code chunks post,
@@ -54,7 +59,7 @@ Section Statements.
   (* Every run that does not end in success (HTTP error, send error, cut body, corrupt
      content, dropped, still pending) leaves the whole cache as it was — a pre-existing entry
      at the path stays intact. *)
-  Theorem c16_failed_leaves_no_entry_partial : forall f0 ss evs,
+  Theorem c16_failed_leaves_no_entry : forall f0 ss evs,
     let s := run (net_start f0 ss) evs in
     ~ succeeded T s -> forall q, cache (s_fs s) q = cache f0 q.
   Proof. exact (net_failed_cache_unchanged T parse early p). Qed.
@@ -62,7 +67,7 @@ Section Statements.
   (* What a successful download does at the path: the new entry, or nothing (caching given up
      or a step of the commit failed), or — when a regular file was already there, it was
      removed and persist then failed — no entry at all.  Other paths are untouched. *)
-  Theorem c16_success_cases_partial : forall f0 ss evs t u,
+  Theorem c16_success_cases : forall f0 ss evs t u,
     let s := run (net_start f0 ss) evs in
     s_l s = LDone (ROk t u) ->
     (forall q, q <> p -> cache (s_fs s) q = cache f0 q) /\
@@ -75,7 +80,7 @@ Section Statements.
   Proof. exact (net_success_shape T parse early p). Qed.
 
   (* The same three statements for whole lookups (local paths, cache, then network). *)
-  Theorem c16_locate_entry_only_after_ok_partial : forall f locals ss evs q c,
+  Theorem c16_locate_entry_only_after_ok : forall f locals ss evs q c,
     let s := locate f locals None ss evs in
     cache (s_fs s) q = Some (File c) -> cache f q <> Some (File c) ->
     q = p /\
@@ -92,14 +97,14 @@ Section Statements.
     (tmp (s_fs s) = tmp f \/ exists c, tmp (s_fs s) = (fresh (tmp f), c) :: tmp f).
   Proof. exact (locate_no_stray_tmp T parse early p). Qed.
 
-  Theorem c16_locate_failed_leaves_no_entry_partial : forall f locals ss evs,
+  Theorem c16_locate_failed_leaves_no_entry : forall f locals ss evs,
     let s := locate f locals None ss evs in
     ~ succeeded T s -> forall q, cache (s_fs s) q = cache f q.
   Proof. exact (locate_failed_unchanged T parse early p). Qed.
 
   (* Only NotFound cascades: a file in a local symbol path or in the cache decides the lookup
      (Ok or parse error), no request is made and nothing is written. *)
-  Theorem c16_only_notfound_cascades_partial : forall f locals race ss evs c,
+  Theorem c16_only_notfound_cascades : forall f locals race ss evs c,
     first_file (locals ++ [cache_file f p]) = Some c ->
     let s := locate f locals race ss evs in
     s_log s = [] /\ s_fs s = f /\ (parse c = None -> s_l s = LDone RParse).
@@ -110,7 +115,7 @@ Section Statements.
      terminating an unterminated last line and appending an INFO URL record changes nothing
      but the url.  (Without the separating newline the record would be glued to an over-long
      unterminated last line and be discarded with it: finding F-C16a, fixed in the code.) *)
-  Theorem c16_rehit_same_partial :
+  Theorem c16_rehit_same_any_parser :
     (forall b t x u, parse b = Some (t, x) -> parse (cached_form b u) = Some (t, Some u)) ->
     forall f0 locals ss evs t u ss2 evs2,
     let s1 := locate f0 locals None ss evs in
@@ -122,23 +127,40 @@ Section Statements.
 
   (* Requests go to the servers in the configured order, at most one per server, and none
      after the lookup has finished (the log is map s_id of a prefix of the server list). *)
-  Theorem c16_requests_in_order_partial : forall f ss evs,
+  Theorem c16_requests_in_order : forall f ss evs,
     let s := run (net_start f ss) evs in
     exists dn rest, ss = dn ++ rest /\ s_log s = map s_id dn.
   Proof. exact (net_requests_prefix T parse early p). Qed.
 End Statements.
 
-Print Assumptions c16_commit_only_after_ok_partial.
-Print Assumptions c16_content_partial.
+Print Assumptions c16_commit_only_after_ok.
+Print Assumptions c16_content.
 Print Assumptions c16_no_stray_tmp_partial.
-Print Assumptions c16_failed_leaves_no_entry_partial.
-Print Assumptions c16_success_cases_partial.
-Print Assumptions c16_locate_entry_only_after_ok_partial.
+Print Assumptions c16_failed_leaves_no_entry.
+Print Assumptions c16_success_cases.
+Print Assumptions c16_locate_entry_only_after_ok.
 Print Assumptions c16_locate_no_stray_tmp_partial.
-Print Assumptions c16_locate_failed_leaves_no_entry_partial.
-Print Assumptions c16_only_notfound_cascades_partial.
-Print Assumptions c16_rehit_same_partial.
-Print Assumptions c16_requests_in_order_partial.
+Print Assumptions c16_locate_failed_leaves_no_entry.
+Print Assumptions c16_only_notfound_cascades.
+Print Assumptions c16_rehit_same_any_parser.
+Print Assumptions c16_requests_in_order.
+
+
+(* The cache-hit theorem for the parser model of C09/C10 ([parse_bytes]: the whole-input verdict
+   that SymbolFile::parse/parse_async return under every chunking when all lines are shorter than
+   80 KiB, c10_chunk_independent).  The parser contract is no longer assumed: it is
+   c10_cached_form_parse.  Only hypothesis: the servers' URLs are [url_ok] (one line, valid
+   UTF-8, not starting with a blank) — `Url::to_string()` of the url crate always is: it starts
+   with the scheme and percent-encodes blanks, controls and non-ASCII bytes. *)
+Theorem c16_rehit_same : forall early p f0 locals ss evs t u ss2 evs2,
+  Forall (fun s => url_ok (s_url s)) ss ->
+  let s1 := locate Grammar.table parse_bytes early p f0 locals None ss evs in
+  s_l s1 = LDone (ROk t u) ->
+  (exists c, cache (s_fs s1) p = Some (File c)) ->
+  let s2 := locate Grammar.table parse_bytes early p (s_fs s1) locals None ss2 evs2 in
+  s_l s2 = LDone (ROk t u) /\ s_log s2 = [] /\ s_fs s2 = s_fs s1.
+Proof. exact rehit_same_bytes. Qed.
+Print Assumptions c16_rehit_same.
 
 (* ---- non-vacuity: concrete runs with the driver's line recogniser ---- *)
 Definition ex_body1 : bytes := [77; 79; 68; 85; 76; 69; 32; 97; 32; 98; 32; 49; 32; 99; 10].   (* "MODULE a b 1 c\n" *)
@@ -183,3 +205,17 @@ Example c16_nonvacuous_sep_needed :
   parse_lite_g 20 (body ++ trailer ex_url) = Some ((0, 0), None) /\
   parse_lite_g 20 (cached_form body ex_url) = Some ((0, 0), Some ex_url).
 Proof. vm_compute. repeat split; reflexivity. Qed.
+
+(* the hypotheses of c16_rehit_same are satisfiable: a download parsed by parse_bytes is committed *)
+Example c16_nonvacuous_rehit_bytes :
+  url_ok ex_url /\
+  let s := locate Grammar.table parse_bytes (fun _ => false) P0 ex_fs [] None [ex_srv]
+                  [EHead 200; EChunk ex_body1; EChunk ex_body2; EEof] in
+  (match s_l s with LDone (ROk _ u) => u = Some ex_url | _ => False end) /\
+  cache (s_fs s) P0 = Some (File (ex_body1 ++ ex_body2 ++ trailer ex_url)).
+Proof.
+  split.
+  - unfold url_ok. split; [|split; vm_compute; reflexivity].
+    unfold ex_url. repeat (constructor; [split; discriminate|]). constructor.
+  - vm_compute. split; reflexivity.
+Qed.
